@@ -456,27 +456,8 @@ fn boundary_stream(ipfix: bool, i: u64) -> (Vec<Vec<u8>>, Vec<u8>) {
 pub fn spaces(tier: &str) -> Vec<Box<dyn Space>> {
     let thorough = tier == "thorough";
     let mut v: Vec<Box<dyn Space>> = vec![];
-    for version in [5u16, 7] {
-        let rs = rec_size(version);
-        let base = fixed_distinct(version, 3, 61);
-        let b2 = base.clone();
-        v.push(space(
-            &format!("v{}-walking-byte-3-records", version),
-            ((base.len() - 4) * 256) as u64,
-            move |i| {
-                let mut b = base.clone();
-                b[4 + (i / 256) as usize] = (i % 256) as u8;
-                judge_fixed(&b)
-            },
-            move |i| {
-                let mut b = b2.clone();
-                b[4 + (i / 256) as usize] = (i % 256) as u8;
-                json!({"calls": [hex(&b)]})
-            },
-        ));
-        let top = if thorough { (65535 - 24) / rs } else { 120 };
-        v.push(space(&format!("v{}-materialised-counts", version), top as u64 + 1, move |n| judge_fixed(&fixed_distinct(version, n as usize, 7)), move |n| json!({"records": n})));
-    }
+    // V5/V7: C03's buffer spaces (walking byte, all 16-bit values, thresholds, every count, all protocol numbers)
+    v.extend(super::c03::buffers(tier).into_iter().filter(|g| thorough || !g.name.contains("all-counts-over")).map(|g| g.into_space(judge_fixed)));
     for ipfix in [false, true] {
         let n = 4 * 4 * 128 * 3 * 3 * 2;
         v.push(space(
